@@ -633,7 +633,8 @@ def run_ubound(src):
         for pr in r.problem_reports:
             m = re.match(r'Run-time UBOUND checks for assumed-shape arg: (\w+)', pr.msg)
             reported.append(m.group(1).lower())
-    res = dict(reported=reported, conds=conds0, fix_error=None, removed=None, fixed=None, ranfix=bool(rep.fixable_reports))
+    res = dict(reported=reported, conds=conds0, fix_error=None, removed=None, fixed=None, ranfix=bool(rep.fixable_reports),
+               lows_before=declared_lows(routine))
     try:
         linter.fix(sf, rep)
     except Exception as e:  # pylint: disable=broad-except
@@ -642,7 +643,36 @@ def run_ubound(src):
     left = [c.source.lines for c in FindNodes(ir.Conditional).visit(sf['kernel'].body) if c.source]
     res['removed'] = [i for i, l in enumerate(conds0) if l not in left]
     res['fixed'] = path.read_text()
+    res['lows_after'] = declared_lows(sf['kernel'])
+    res['shapes'] = {a.name.lower(): [str(d).lower() for d in a.shape] for a in sf['kernel'].arguments if getattr(a, 'shape', None)}
     return res
+
+
+def declared_lows(routine):
+    """declared lower bound of every dimension of every array dummy argument ('1' where none is given)"""
+    from loki.expression import symbols as sym  # pylint: disable=import-outside-toplevel
+    out = {}
+    for a in routine.arguments:
+        if getattr(a, 'shape', None):
+            out[a.name.lower()] = ['1' if not isinstance(d, sym.RangeIndex) or d.lower is None else str(d.lower).lower()
+                                   for d in a.shape]
+    return out
+
+
+def declared_plain(src):
+    """{name: True iff the REAL declaration in the text is name(:, :, ...)} for the generated dummy arrays"""
+    out = {}
+    for m in re.finditer(r'^\s*real, intent\(inout\) :: (\w+)\(([^)]*)\)', src, re.M | re.I):
+        out[m.group(1).lower()] = all(d.strip() == ':' for d in m.group(2).split(','))
+    return out
+
+
+def own_bounds(src, name, d):
+    """the operands UBOUND(name, d) is compared with in the text (code only: comments and literals stripped)"""
+    code = '\n'.join(''.join(t[2] for t in toks(l) if t[0] == 'ch' and t[1] == 'code') for l in src.split('\n'))
+    call = rf'ubound\s*\(\s*{name}\s*,\s*{d}\s*\)'
+    return {m.group(1).lower() for m in re.finditer(call + r'\s*<\s*(\w+)', code, re.I)} | \
+        {m.group(1).lower() for m in re.finditer(r'(\w+)\s*>\s*' + call, code, re.I)}
 
 
 def relint_ubound(text):
@@ -693,7 +723,7 @@ class C43(Prop):
     theorems = ['C43_tables_pinned', 'C43_render_toks', 'C43_fix_local', 'C43_fix_retokenize', 'C43_fix_clean',
                 'C43_fix_idempotent', 'C43_fix_protected', 'C43_fix_sem_partial', 'C43_sym_injective',
                 'C43_real_fix_untouched', 'C43_findall_f77', 'C43_fixer_lines', 'C43_fixer_local', 'C43_fixer_clean',
-                'C43_fixer_protected']
+                'C43_fixer_protected', 'C43_ubound_reported_assumed', 'C43_ubound_shape_own', 'C43_ubound_shape_from_own']
     design_ref = 'DESIGN.md 4.x C43'
     level = 'proof'
     level_text = ('Theorems (Lean kernel) about the model of the RUNNING operator fixer (since the fix: commits the fixer replaces '
@@ -725,7 +755,9 @@ class C43(Prop):
             'streams: the same programs and random concatenations of 34 fragments through the Lean spec tokenizer vs its Python '
             'mirror; ubound stream: 1-3 array arguments (rank 1-3, assumed or explicit shape) with full/partial/joined/repeated '
             'checks (ubound/size/lbound, literal or variable dimension, </> orientation, abort or other body, inline or block form, '
-            'upper/lower case) mixed with filler statements; non-trivial = an F77 operator in code / at least one check; distinct by request')
+            'upper/lower case, bounds from a pool of six names) mixed with filler statements; arguments with declared lower bounds '
+            '(0:, 1:, 2:, -1:, nblk: - not plain assumed shape) and one IF checking the same dimension of several arguments against '
+            'different bounds in every operand order (structured + random); non-trivial = an F77 operator in code / at least one check; distinct by request')
     trusted_base = ['harness/props/c43.py: Python mirror of the spec tokenizer and of the known-class predicates (diffed with the Lean ones)',
                     'harness/props/c43.py: renderer of the abstract UBOUND-check descriptions to Fortran',
                     'Lean driver evaluation of the model definitions']
@@ -777,6 +809,8 @@ class C43(Prop):
         for _ in range(n_fz):
             t = ''.join(rng.choice(frag) for _ in range(rng.randint(0, 12)))
             yield Case([A('spec'), t], stream='spec-fuzz', nontrivial='.' in t)
+        for desc in ub_structured():
+            yield Case(ub_request(desc), stream='ubound-structured', nontrivial=True)
         for _ in range(n_ub):
             desc = gen_ubound(rng)
             yield Case(ub_request(desc), stream='ubound', nontrivial=bool(desc['conds']))
@@ -811,7 +845,9 @@ class C43(Prop):
             res = run_ubound(src)
             if res['fix_error']:
                 return [A('error'), A('fix-' + res['fix_error'].lower())]
-            return [A('ok'), [A('reported')] + res['reported'], [A('removed')] + res['removed']]
+            names = [a[0] for a in args]
+            return [A('ok'), [A('reported')] + res['reported'], [A('removed')] + res['removed'],
+                    [A('shapes')] + [[n] + res['shapes'].get(n, []) for n in names if n in res['reported']]]
         raise ValueError(op)
 
     # ---- direct oracle
@@ -918,11 +954,31 @@ class C43(Prop):
         fails = []
         if res['fix_error']:
             return [Failure(f'the fix raises {res["fix_error"]}', None)]
+        # only plain assumed-shape arguments (every dimension declared `:`) are the rule's business
+        plain = declared_plain(src)
+        for n in res['reported']:
+            if not plain.get(n, False):
+                decl = next((l.strip() for l in src.split('\n') if re.search(rf'::\s*{n}\(', l)), n)
+                fails.append(Failure(f'argument {n} is not a plain assumed-shape array ({decl!r}) but is reported', None))
         if not res['ranfix']:
             if res['fixed'] != src:
                 fails.append(Failure('file rewritten although nothing was reported', None))
             return fails
         fixed = res['fixed']
+        # declared lower bounds never change through the fix
+        if res['lows_after'] != res['lows_before']:
+            ch = {n: (res['lows_before'][n], res['lows_after'].get(n)) for n in res['lows_before']
+                  if res['lows_after'].get(n) != res['lows_before'][n]}
+            fails.append(Failure(f'declared lower bounds of dummy arguments changed by the fix: {ch!r}', None))
+        # the new extent of dimension d of a fixed argument is an operand its OWN ubound(arg, d) was compared with
+        for n in res['reported']:
+            other_fn = any(c[1] == n and c[0] != 'ubound' for c in calls)
+            for d, ext in enumerate(res['shapes'].get(n, []), 1):
+                own = own_bounds(src, n, d)
+                if ext not in own:
+                    fails.append(Failure(f'after the fix {n} is declared with extent {ext!r} in dimension {d}, but ubound({n}, {d}) '
+                                         f'was compared with {sorted(own)!r}', 'ubound-not-an-ubound-check' if other_fn else None))
+                    break
         rep, rem = ub_model(args, calls)
         lines = src.split('\n')
         cond_lines = set()
@@ -986,8 +1042,8 @@ class C43(Prop):
 
     def canon_model(self, resp):
         # the removed conditionals are a set (keys of node_map): ascending order on both sides
-        if isinstance(resp, list) and len(resp) == 3 and isinstance(resp[2], list) and resp[2] and str(resp[2][0]) == 'removed':
-            resp = [resp[0], resp[1], [resp[2][0]] + sorted(resp[2][1:], key=lambda x: int(str(x)))]
+        if isinstance(resp, list) and len(resp) >= 3 and isinstance(resp[2], list) and resp[2] and str(resp[2][0]) == 'removed':
+            resp = resp[:2] + [[resp[2][0]] + sorted(resp[2][1:], key=lambda x: int(str(x)))] + resp[3:]
         return resp
 
     def shrink_candidates(self, req):
